@@ -61,6 +61,17 @@ def handle (op : String) (j : Json) : Option (Except String Json) :=
       let n := h.length
       let cols := (List.range (2 ^ (2 * n))).map (Spec.applyF (Spec.C19.molOp n (← J.rat (← J.field j "const")) h g))
       .ok (J.ofGQ (Spec.C19.pauliTrace (2 * n) cols 0 0))
+  | "c19.spec.mol_coulomb" => some do
+      -- one_norm_spec_partial: exact-run flag of the Model Jordan-Wigner transform on the spin-orbital matrices and
+      -- the 1-norm of its non-identity strings
+      let h ← ratMat (← J.field j "h"); let g ← ratT4 (← J.field j "g")
+      let n := h.length
+      let c : GQ := ⟨← J.rat (← J.field j "const"), 0⟩
+      let one := Spec.C19.flatReal (2 * n) (Spec.C19.spinOne n h)
+      let two := Spec.C19.flatReal (2 * n) (Spec.C19.spinCoulomb n g)
+      let img := Model.C04.jwDCH Generated.eqTolerance (2 * n) c one two
+      .ok (J.obj [("ok", Json.bool (Model.C04.jwDCHOk Generated.eqTolerance (2 * n) c one two)),
+                  ("norm", J.ofRat (Spec.C19.pauliListNorm img false))])
   | "c19.one_norm" => some do
       let h ← ratMat (← J.field j "h"); let g ← ratT4 (← J.field j "g")
       if (← J.bool (← J.field j "woconst")) then .ok (J.ofRat (oneNormWoConst h g))
